@@ -5,8 +5,8 @@ use educe::Educe;
 use core::cmp::Ordering;
 #[derive(Educe)]
 #[educe(PartialEq)]
-pub enum T { None {  }, B }
-pub fn values() -> Vec<T> { vec![T::None {  }, T::B] }
-pub fn show(x: &T) -> String { #[allow(unused_variables)] match x { T::None {  } => format!("None()"), T::B => format!("B()") } }
-pub fn o_eq(a: &T, b: &T) -> bool { match (a, b) { (T::None {  }, T::None {  }) => true, (T::B, T::B) => true, _ => false } }
+pub enum T { None(A<0>, #[educe(PartialEq(ignore(true)))] A<1>), A { data: A<0>, x: A<1> } }
+pub fn values() -> Vec<T> { vec![T::None(A(0), A(0)), T::None(A(0), A(1)), T::None(A(0), A(7)), T::None(A(1), A(0)), T::None(A(1), A(1)), T::None(A(1), A(7)), T::None(A(7), A(0)), T::None(A(7), A(1)), T::None(A(7), A(7)), T::A { data: A(0), x: A(0) }, T::A { data: A(0), x: A(1) }, T::A { data: A(0), x: A(7) }, T::A { data: A(1), x: A(0) }, T::A { data: A(1), x: A(1) }, T::A { data: A(1), x: A(7) }, T::A { data: A(7), x: A(0) }, T::A { data: A(7), x: A(1) }, T::A { data: A(7), x: A(7) }] }
+pub fn show(x: &T) -> String { #[allow(unused_variables)] match x { T::None(p0, p1) => format!("None({},{})", sv(p0), sv(p1)), T::A { data: p0, x: p1 } => format!("A({},{})", sv(p0), sv(p1)) } }
+pub fn o_eq(a: &T, b: &T) -> bool { match (a, b) { (T::None(a0, a1), T::None(b0, b1)) => (a0 == b0), (T::A { data: a0, x: a1 }, T::A { data: b0, x: b1 }) => (a0 == b0) && (a1 == b1), _ => false } }
 pub fn run(out: &mut Out) { let vs = values(); for a in &vs { for b in &vs { let e = o_eq(a, b); out.check((a == b) == e, "eq_21", "eq", || format!("{} == {} expected {}", show(a), show(b), e)); out.check((a != b) == !e, "eq_21", "ne", || format!("{} != {} expected {}", show(a), show(b), !e)); } } }
